@@ -16,7 +16,14 @@ import (
 	"time"
 )
 
-const Root = "/verif"
+// Root is the framework directory (evidence/, replays/, known findings). ./check exports VERIF_ROOT so that
+// a background run from a snapshot (vp run) writes into the snapshot, not into /verif.
+var Root = func() string {
+	if r := os.Getenv("VERIF_ROOT"); r != "" {
+		return r
+	}
+	return "/verif"
+}()
 
 // ---------------------------------------------------------------------------------------------
 // PRNG: SplitMix64. Deterministic, independent of math/rand versions.
